@@ -6,7 +6,7 @@ import random
 from core import vloop
 from e2e import common, run_e2e, runner, scenario, upstream
 
-EXPECTED = ["C01_exit0_all_stages_clean", "C01_clean_stage_all_obtained", "C01_clean_stage_sizes", "C01_packages_pool_complete"]
+EXPECTED = ["C01_exit0_all_stages_clean", "C01_clean_stage_all_obtained", "C01_clean_stage_sizes", "C01_packages_pool_complete", "C01_sources_pool_complete"]
 LEVEL = "proof"
 RULE = ("scenario = 1-2 random upstream repositories (1-2 codenames, 1-3 components incl. nested, 1-3 architectures, "
         "Packages/Sources/Translation/Contents/dep11/cnf indices in 1-4 compressions, by-hash on/off, 1-3 release flavours) "
